@@ -23,7 +23,9 @@ pub fn prop() -> Prop {
     }
 }
 
-fn check_err(ctx: &mut Ctx, e: &AsmErr, src: Option<&str>, labels: &[String], case: &dyn Fn() -> Json, origin: &str) {
+fn check_err(ctx: &mut Ctx, e: &AsmErr, src: Option<&str>, labels: &[String], case: &dyn Fn() -> Json, origin: &str) { check_err_a(ctx, e, src, labels, None, case, origin) }
+/// `known`: the program's defined / declared labels (upper case -> is external), when the reference analysis is at hand
+fn check_err_a(ctx: &mut Ctx, e: &AsmErr, src: Option<&str>, labels: &[String], known: Option<&std::collections::BTreeMap<String, bool>>, case: &dyn Fn() -> Json, origin: &str) {
     let kind = format!("{:?}", e.kind).split('(').next().unwrap().to_string();
     let Some(sp) = ctx.no_panic("AsmErr::span", case, || e.span()) else { return };
     let Some(sp) = sp else { ctx.violation(&format!("{origin}-error-without-span:{kind}"), format!("{:?} carries no span list", e.kind), case()); return };
@@ -42,6 +44,15 @@ fn check_err(ctx: &mut Ctx, e: &AsmErr, src: Option<&str>, labels: &[String], ca
         for s in &all {
             let t = src.get(s.clone()).unwrap_or("<not on char boundary>");
             if !labels.iter().any(|l| l.eq_ignore_ascii_case(t)) { ctx.violation(&format!("label-error-span-not-a-label:{kind}"), format!("{:?} span {s:?} covers {t:?}, which is not a label of the program", e.kind), case()); return; }
+            // the span must cover the *offending* label, not just any label of the program
+            if let Some(known) = known {
+                let up = t.to_uppercase();
+                match e.kind {
+                    AsmErrKind::CouldNotFindLabel if known.contains_key(&up) => { ctx.violation("label-error-span-covers-another-label:CouldNotFindLabel", format!("CouldNotFindLabel span {s:?} covers {t:?}, which the program does define or declare"), case()); return; }
+                    AsmErrKind::OffsetExternal if known.get(&up) != Some(&true) => { ctx.violation("label-error-span-covers-another-label:OffsetExternal", format!("OffsetExternal span {s:?} covers {t:?}, which is not an external label"), case()); return; }
+                    _ => {}
+                }
+            }
             texts.push(t.to_string());
         }
         if matches!(e.kind, AsmErrKind::OverlappingLabels) && texts.len() >= 2 && !texts[0].eq_ignore_ascii_case(&texts[1]) { ctx.violation("overlapping-labels-spans-name-different-labels", format!("spans cover {texts:?}"), case()); return; }
@@ -75,7 +86,7 @@ fn run(ctx: &mut Ctx) {
         for debug in [true, false] {
             let case = || Json::obj().set("source", r.text.as_str()).set("debug", debug).set("violated", Json::Arr(a.faults.iter().map(|f| Json::from(f.as_str())).collect()));
             let Some(res) = ctx.no_panic("assemble", &case, || crate::asmutil::asm(&r.text, debug)) else { return };
-            if let Ok(Err(e)) = res { ctx.nontrivial_str(&format!("{}{:?}", r.text, e.kind)); check_err(ctx, &e, Some(&r.text), &labels, &case, "asm"); if wide_labels { ctx.count("asm.errors.with-multibyte-labels"); } if bom { ctx.count("asm.errors.with-byte-order-mark"); } if ctx.want_sample() && r.text.len() < 200 { ctx.sample(Json::obj().set("source", r.text.as_str()).set("error", format!("{:?}", e.kind)).set("span", format!("{:?}", e.span))); } }
+            if let Ok(Err(e)) = res { ctx.nontrivial_str(&format!("{}{:?}", r.text, e.kind)); let known: std::collections::BTreeMap<String, bool> = { let ext: std::collections::BTreeSet<String> = prog.stmts.iter().filter_map(|st| if let K::External(l) = &st.k { Some(l.to_uppercase()) } else { None }).collect(); let def: std::collections::BTreeSet<String> = prog.stmts.iter().flat_map(|st| st.labels.iter().map(|l| l.to_uppercase())).collect(); let mut k = std::collections::BTreeMap::new(); for n in &ext { if !def.contains(n) { k.insert(n.clone(), true); } } for n in &def { if !ext.contains(n) { k.insert(n.clone(), false); } } k }; check_err_a(ctx, &e, Some(&r.text), &labels, Some(&known), &case, "asm"); if wide_labels { ctx.count("asm.errors.with-multibyte-labels"); } if bom { ctx.count("asm.errors.with-byte-order-mark"); } if ctx.want_sample() && r.text.len() < 200 { ctx.sample(Json::obj().set("source", r.text.as_str()).set("error", format!("{:?}", e.kind)).set("span", format!("{:?}", e.span))); } }
         }
     });
     let n = ctx.tier.pick(1_500, 100_000);
